@@ -11,5 +11,10 @@ CONSTANTS
   VecRows = {"vec_in", "vec_inout", "vec_out_alloc", "vec_inout_alloc"}
   KindRows = {"ushortint_v", "short_v", "ushort_v", "uint_v", "ulong_v", "llong_v", "float_v", "size_v", "i8_v", "i64_v", "u16_v", "u32_v"}
   KindResults = {"ushortint", "short", "ushort", "uint", "ulong", "llong", "float", "size", "i8", "i64", "u16", "u32"}
+  TInt = {"enum_v", "i64_v", "i8_v", "int_pin", "int_pinout", "int_pout", "int_ref", "int_v", "llong_v", "long_v", "short_v", "size_v", "tdint_v", "u16_v", "u32_v", "uint_v", "ulong_v", "ushort_v", "ushortint_v"}
+  TReal = {"dbl_cref", "dbl_pout", "double_v", "float_v"}
+  TLogical = {"bool_pinout", "bool_v"}
+  TChar = {"cstr_in", "str_cref", "str_ref_inout", "str_ref_out", "tdstr_in"}
+  TStruct = {"pt_cref", "pt_pinout", "pt_v"}
   MaxFuncs = 8
   MaxParams = 2
